@@ -618,7 +618,41 @@ def r13(ctx):
            'every re-evaluating path caches what it returns')
 
 
+def r14(ctx):
+    ctx.rule('C13.R14', 'the change time is the time of THIS update: wherever a function of message.cpp copies m_lastUpdateTime '
+             'into m_lastChangeTime (data differs from the stored data), no write of m_lastUpdateTime is reachable behind the '
+             'copy in the same call (time(&m_lastUpdateTime) comes first) - otherwise the change carries the time of the '
+             'previous update, and the lazy re-evaluation of a condition, which compares the change time with the time of its '
+             'last check, misses the change', minimum=3)
+    fb = ctx.fb
+    n = 0
+    seen = set()
+    for fn in fb.functions:
+        if not fn.relfile.startswith('src/lib/ebus/message.') or not fn.blocks or (fn.name, fn.sig) in seen:
+            continue
+        seen.add((fn.name, fn.sig))
+        copies = [nid for nid, d, rhs, op, lhs in fn.assignments() if lhs is not None and rhs is not None and op == '=' and
+                  fn.key(lhs).endswith('m_lastChangeTime') and fn.key(rhs).endswith('m_lastUpdateTime')]
+        if not copies:
+            continue
+        writes = set(nid for nid, d, rhs, op, lhs in fn.assignments() if lhs is not None and op != 'init' and fn.key(lhs).endswith('m_lastUpdateTime'))
+        for c in fn.calls():
+            if any(fn.key(a) in ('&this.m_lastUpdateTime',) or fn.key(a).endswith('&this.m_lastUpdateTime') for a in fn.nodes[c].get('args', [])):
+                writes.add(c)
+        for c in copies:
+            n += 1
+            ctx.touch(fn)
+            late = [w for w in writes if fn.block_of(w) is not None and fn.reaches_point(fn.pos(c)[0], fn.pos(w), set(), start_idx=fn.pos(c)[1] + 1)]
+            before = [w for w in writes if fn.block_of(w) is not None and fn.reaches_point(fn.pos(w)[0], fn.pos(c), set(), start_idx=fn.pos(w)[1] + 1)]
+            ok = not late and bool(before)
+            ctx.ob('C13.R14', fn, c, ok, 'm_lastChangeTime = m_lastUpdateTime in %s' % fn.name.split('::', 1)[1],
+                   'the update time is taken before the copy: %s; written again behind it: %s' % (bool(before), bool(late)))
+    if n < 3:
+        raise AnalysisBroken('C13.R14: only %d copies of the update time into the change time found' % n)
+
+
 def run(ctx):
+    r14(ctx)
     r13(ctx)
     r12(ctx)
     r11(ctx)
